@@ -34,6 +34,12 @@ func isVisitorIface(t types.Type) bool {
 	if !ok {
 		return false
 	}
+	if n.Obj().Pkg() != nil && strings.HasSuffix(n.Obj().Pkg().Path(), "go-structform/gotype") && n.Obj().Name() == "visitor" {
+		// gotype's private name for structform.ExtVisitor (an interface that only embeds it)
+		if it, ok := n.Underlying().(*types.Interface); ok && it.NumEmbeddeds() == 1 && it.NumExplicitMethods() == 0 {
+			return isVisitorIface(it.EmbeddedType(0))
+		}
+	}
 	if n.Obj().Pkg() == nil || !strings.HasSuffix(n.Obj().Pkg().Path(), "go-structform") {
 		return false
 	}
